@@ -51,7 +51,9 @@ Definition is_done (p : pos) : bool :=
 Inductive mlabel :=
 | MArrive (t : tid) (n : name)
 | MRelease (t : tid) (a : act)
-| MSetCert (n : name) (c : cert).     (* the harness changes the state of a cached certificate (revokes it) *)
+| MSetCert (n : name) (c : cert)      (* the harness changes the state of a cached certificate (revokes it) *)
+| MEvictCert (n : name) (c : cert).   (* the harness removes a certificate from the cache (Cache.Remove: what a
+                                         capacity eviction or RemoveManaged does), typically the one under renewal *)
 
 Record seen := Seen {
   s_pos : list (tid * name * pos);   (* every goroutine so far *)
@@ -66,6 +68,7 @@ Definition apply_label (s : state) (l : mlabel) : option state :=
   | MArrive t n => step s (LArrive t n)
   | MRelease t a => step s (LThread t a)
   | MSetCert n c => step s (LCacheSet n c)
+  | MEvictCert n c => step s (LEvict n c)
   end.
 
 Definition names_in (m : name -> option chan) (names : list name) : list name :=
@@ -114,6 +117,8 @@ Definition point_ok (names : list name) (o : seen) : bool :=
        the three waiting selects (e.g. on the storage lock behind another worker) *)
     (count (fun p => match p with AtIssue => true | _ => false end) ps <=? 1)%nat &&
     negb (existsb (fun p => match p with Running => true | _ => false end) ps) &&
+    (* no handshake has returned the empty certificate (no chain / no private key) with a nil error *)
+    negb (existsb (fun p => match p with DoneEmpty => true | _ => false end) ps) &&
     (* a goroutine waits only on a channel that is still registered ... *)
     (negb (existsb (fun p => match p with WaitLoad => true | _ => false end) ps) || mem_nat n (s_lmap o)) &&
     (negb (existsb (fun p => match p with WaitObtain | WaitRenew => true | _ => false end) ps) || mem_nat n (s_omap o)) &&
@@ -137,8 +142,13 @@ Definition label_is_bad (l : mlabel) : bool :=
   | _ => false
   end.
 
+(** a failure chosen by the harness, or its removal of a certificate from the cache: after either,
+    "everybody is served the current certificate at once" can no longer be expected *)
+Definition label_disturbs (l : mlabel) : bool :=
+  label_is_bad l || match l with MEvictCert _ _ => true | _ => false end.
+
 (** the goroutine a label acts on *)
-Definition label_tid (l : mlabel) : tid := match l with MArrive t _ | MRelease t _ => t | MSetCert _ _ => O end.
+Definition label_tid (l : mlabel) : tid := match l with MArrive t _ | MRelease t _ => t | MSetCert _ _ | MEvictCert _ _ => O end.
 Definition name_of (o : seen) (t : tid) : option name :=
   match find (fun x => Nat.eqb (fst (fst x)) t) (s_pos o) with Some x => Some (snd (fst x)) | None => None end.
 
@@ -147,12 +157,12 @@ Definition name_of (o : seen) (t : tid) : option name :=
     waiting: has an attempt for the scenario's name been denied / failed / been cancelled since it was
     first seen waiting *)
 Fixpoint run_ok (sc : scen) (names : list name) (bad_before : bool) (arrived waited : list tid)
-                (wflag : list (tid * bool)) (issued : list name) (ms : list mstep) : bool :=
+                (wflag oflag : list (tid * bool)) (issued : list name) (ms : list mstep) : bool :=
   match ms with
   | [] => true
   | m :: r =>
       let o := m_seen m in
-      let bad := bad_before || label_is_bad (m_label m) in
+      let bad := bad_before || label_disturbs (m_label m) in
       let bad_here := label_is_bad (m_label m) &&
                       match name_of o (label_tid (m_label m)) with Some n => Nat.eqb n (sc_name sc) | None => true end in
       let arrived' := match m_label m with MArrive t _ => t :: arrived | _ => arrived end in
@@ -160,6 +170,11 @@ Fixpoint run_ok (sc : scen) (names : list name) (bad_before : bool) (arrived wai
       let waited' := now_waiting ++ waited in
       let wflag1 := map (fun tb => (fst tb, snd tb || bad_here)) wflag in
       let wflag' := map (fun t => (t, false)) (filter (fun t => negb (mem_nat t (map fst wflag1))) now_waiting) ++ wflag1 in
+      (* the same for the goroutines seen waiting on the obtain map (for an obtain / a renewal) *)
+      let now_owaiting := map (fun x => fst (fst x))
+                              (filter (fun x => match snd x with WaitObtain | WaitRenew => true | _ => false end) (s_pos o)) in
+      let oflag1 := map (fun tb => (fst tb, snd tb || bad_here)) oflag in
+      let oflag' := map (fun t => (t, false)) (filter (fun t => negb (mem_nat t (map fst oflag1))) now_owaiting) ++ oflag1 in
       (* names for which the issuer has delivered a certificate that has not been revoked since *)
       let issued' :=
         match m_label m with
@@ -196,7 +211,18 @@ Fixpoint run_ok (sc : scen) (names : list name) (bad_before : bool) (arrived wai
                          | _ => true
                          end)
                (filter (of_name (sc_name sc)) (s_pos o))) &&
-      run_ok sc names bad arrived' waited' wflag' issued' r
+      (* the waiters of a successful attempt find its result: a handshake for the name that has been
+         seen waiting for an obtain / a renewal ends with an error only if an attempt for the name has been denied, has failed or
+         was cancelled since it was first seen waiting — whatever happened to the cache meanwhile (the
+         worker's reload inserts the new certificate also when the old one has been evicted) *)
+      forallb (fun x => match snd x with
+                        | DoneErr =>
+                            negb (mem_nat (fst (fst x)) (map fst oflag')) ||
+                            existsb (fun tb => Nat.eqb (fst tb) (fst (fst x)) && snd tb) oflag'
+                        | _ => true
+                        end)
+              (filter (of_name (sc_name sc)) (s_pos o)) &&
+      run_ok sc names bad arrived' waited' wflag' oflag' issued' r
   end.
 
 (** at the end: everybody finished, both maps empty *)
@@ -214,12 +240,12 @@ Definition end_ok (ms : list mstep) : bool :=
     is cancelled as soon as it returns) *)
 Definition delivered_ok (sc : scen) (ms : list mstep) : bool :=
   negb (sc_serve_current sc) ||
-  existsb (fun m => label_is_bad (m_label m)) ms ||
+  existsb (fun m => label_disturbs (m_label m)) ms ||
   negb (existsb (fun m => match m_label m with MArrive _ n => Nat.eqb n (sc_name sc) | _ => false end) ms) ||
   existsb (fun m => match m_label m with MRelease _ (AIssue OOk) => true | _ => false end) ms.
 
 Definition spec_ok (sc : scen) (names : list name) (complete : bool) (ms : list mstep) : bool :=
-  run_ok sc names false [] [] [] [] ms && (negb complete || (end_ok ms && delivered_ok sc ms)).
+  run_ok sc names false [] [] [] [] [] ms && (negb complete || (end_ok ms && delivered_ok sc ms)).
 
 (** ** wire decoding *)
 Definition get_cls : dec cls :=
@@ -250,6 +276,7 @@ Definition get_mlabel : dec mlabel :=
    | 0%N => i <- get_nat ;; n <- get_nat ;; ret (MArrive i n)
    | 1%N => i <- get_nat ;; a <- get_act ;; ret (MRelease i a)
    | 2%N => n <- get_nat ;; c <- get_cert_w ;; ret (MSetCert n c)
+   | 3%N => n <- get_nat ;; c <- get_cert_w ;; ret (MEvictCert n c)
    | _ => fun _ => None
    end).
 Definition get_seen : dec seen :=
